@@ -399,11 +399,13 @@ func jobToks(rng *rand.Rand, n int) string {
 func gen(rng *rand.Rand, tier string) []string {
 	limits := []int{0, 1, 1, 2, 2, 3, 1, 2, -1}
 	l := limits[rng.Intn(len(limits))]
-	steps, maxJobs, maxCalls := 8+rng.Intn(14), 9, 9
+	// The number of calls that can be in flight together is kept small: every call whose critical
+	// sections are not pinned down by the history multiplies the state set of the inclusion check.
+	steps, maxJobs, maxWI, maxWS := 8+rng.Intn(14), 9, 2, 2
 	if tier == "thorough" {
-		steps, maxJobs, maxCalls = 10+rng.Intn(40), 16, 14
+		steps, maxJobs, maxWI, maxWS = 10+rng.Intn(30), 14, 3, 2
 	}
-	njobs, ncalls, ngates := 0, 0, 0
+	njobs, ncalls, nwi, nws, ngates, openIn := 0, 0, 0, 0, 0, -1
 	var out []string
 	k := 0
 	if rng.Intn(3) == 0 {
@@ -419,38 +421,51 @@ func gen(rng *rand.Rand, tier string) []string {
 	}
 	// nil jobs are in the id space too; releasing them is a no-op
 	for i := 0; i < steps; i++ {
+		if openIn == 0 {
+			out = append(out, fmt.Sprintf("open %d", ngates-1), "settle")
+		}
+		if openIn >= 0 {
+			openIn--
+		}
 		r := rng.Intn(100)
 		switch {
-		case r < 22 && njobs < maxJobs && ncalls < maxCalls:
+		case r < 24 && njobs < maxJobs:
 			n := 1 + rng.Intn(3)
-			if rng.Intn(12) == 0 {
+			if rng.Intn(10) == 0 {
 				n = 0
 			}
 			op := "enqueue"
-			if rng.Intn(3) == 0 {
+			if rng.Intn(4) == 0 {
 				op = "aenqueue"
 			}
 			out = append(out, strings.TrimSpace(op+" "+jobToks(rng, n)))
+			if op == "aenqueue" && rng.Intn(4) != 0 {
+				out = append(out, "settle")
+			}
 			for j := 0; j < n; j++ {
 				unreleased = append(unreleased, njobs+j)
 			}
 			njobs += n
 			ncalls++
-		case r < 47 && len(unreleased) > 0:
+		case r < 50 && len(unreleased) > 0:
 			x := rng.Intn(len(unreleased))
 			if rng.Intn(3) != 0 {
 				x = 0 // mostly oldest first
 			}
 			out = append(out, fmt.Sprintf("release %d", unreleased[x]))
 			unreleased = append(unreleased[:x], unreleased[x+1:]...)
-		case r < 57 && ncalls < maxCalls:
+			if rng.Intn(3) == 0 {
+				out = append(out, "settle")
+			}
+		case r < 59 && nwi < maxWI:
 			if rng.Intn(3) == 0 {
 				out = append(out, "waitidle e")
 			} else {
 				out = append(out, "waitidle")
 			}
+			nwi++
 			ncalls++
-		case r < 66 && ncalls < maxCalls:
+		case r < 67 && nws < maxWS:
 			switch rng.Intn(8) {
 			case 0:
 				out = append(out, "watch nil")
@@ -461,29 +476,29 @@ func gen(rng *rand.Rand, tier string) []string {
 			default:
 				out = append(out, "watch -1 stop")
 			}
+			nws++
 			ncalls++
 		case r < 71 && ncalls > 1:
 			out = append(out, fmt.Sprintf("cancel %d", 1+rng.Intn(ncalls-1)))
 		case r < 75 && ncalls > 1:
 			out = append(out, fmt.Sprintf("errch %d %s", 1+rng.Intn(ncalls-1), []string{"nil", "err", "close", "nil"}[rng.Intn(4)]))
-		case r < 79 && ngates < 2:
-			out = append(out, fmt.Sprintf("gate %s %d", []string{"hold-enter", "hold-exit"}[rng.Intn(2)], 1+rng.Intn(2)))
+		case r < 80 && ngates < 2 && openIn < 0:
+			out = append(out, "settle", fmt.Sprintf("gate %s %d", []string{"hold-enter", "hold-exit"}[rng.Intn(2)], 1+rng.Intn(2)))
 			ngates++
-		case r < 83 && ngates > 0:
-			out = append(out, fmt.Sprintf("open %d", rng.Intn(ngates)))
-		case r < 92:
+			openIn = 1 + rng.Intn(3)
+		case r < 90:
 			out = append(out, "settle")
 		default:
 			out = append(out, "quiesce")
 		}
 	}
 	out = append(out, "quiesce")
-	if rng.Intn(2) == 0 && ncalls < maxCalls+1 {
+	if rng.Intn(2) == 0 && nwi < maxWI+1 {
 		out = append(out, "waitidle")
 	}
 	for _, j := range unreleased {
 		out = append(out, fmt.Sprintf("release %d", j))
-		if rng.Intn(4) == 0 {
+		if rng.Intn(3) == 0 {
 			out = append(out, "settle")
 		}
 	}
